@@ -13,45 +13,75 @@ def OptOut (B : Nat → Prop) : Option Nat → Prop
   | some x => ¬ B x
 
 /-- the pointers an edit follows out of this cell do not lead into `B` -/
-def CellOut (B : Nat → Prop) : Cell → Prop
-  | .val v => OptOut B v.type ∧ OptOut B v.shape ∧ ¬ B v.props ∧ ¬ B v.mstore ∧ OptOut B v.graph
-  | .node n => (∀ v, some v ∈ n.inputs → ¬ B v) ∧ ¬ B n.props ∧ ¬ B n.mstore
+def CellOut (strict : Bool) (B : Nat → Prop) : Cell → Prop
+  | .val v => OptOut B v.type ∧ OptOut B v.shape ∧ ¬ B v.props ∧ ¬ B v.mstore ∧ OptOut B v.graph ∧
+      OptOut B v.const
+  | .node n => (strict = true → ∀ v, some v ∈ n.inputs → ¬ B v) ∧ ¬ B n.props ∧ ¬ B n.mstore
   | .graph g => (∀ v ∈ g.outputs, ¬ B v) ∧ ¬ B g.props ∧ ¬ B g.mstore
   | .model m => ¬ B m.props ∧ ¬ B m.mstore
   | _ => True
 
-/-- `B` is a region of the heap `wB` that the running edit must not touch -/
-structure FInv (B : Nat → Prop) (wB : World) (s : St) : Prop where
-  bound : ∀ i, B i → i < s.w.length
-  same : ∀ i, B i → s.w[i]? = wB[i]?
-  sep : ∀ (i : Nat) (c : Cell), ¬ B i → s.w[i]? = some c → CellOut B c
+/-- the usage records of a value that were made by nodes of `B` -/
+noncomputable def usesByB (B : Nat → Prop) (c : Cell) : List (Nat × Nat) :=
+  c.usesOf.filter (fun u => @decide (B u.1) (Classical.propDecidable _))
 
-def FGoodAt (B : Nat → Prop) (wB : World) (m : M α) (s : St) (Q : α → St → Prop) : Prop :=
-  FInv B wB (m s).2 ∧ s.w.length ≤ (m s).2.w.length ∧ ∀ a, (m s).1 = .ok a → Q a (m s).2
+/-- how a cell of the protected region may differ from what it was: not at all (`strict`), or only
+    in usage records made by nodes outside the region -/
+def CellRel (strict : Bool) (B : Nat → Prop) (c0 c : Cell) : Prop :=
+  if strict then c = c0 else c.eraseUses = c0.eraseUses ∧ usesByB B c = usesByB B c0
+
+def OptRel (strict : Bool) (B : Nat → Prop) : Option Cell → Option Cell → Prop
+  | none, none => True
+  | some a, some b => CellRel strict B a b
+  | _, _ => False
+
+theorem CellRel.refl (strict : Bool) (B : Nat → Prop) (c : Cell) : CellRel strict B c c := by
+  unfold CellRel; split <;> simp
+
+theorem OptRel.refl (strict : Bool) (B : Nat → Prop) (o : Option Cell) : OptRel strict B o o := by
+  cases o with
+  | none => trivial
+  | some c => exact CellRel.refl strict B c
+
+theorem CellRel.trans {strict : Bool} {B : Nat → Prop} {a b c : Cell} (h1 : CellRel strict B a b)
+    (h2 : CellRel strict B b c) : CellRel strict B a c := by
+  unfold CellRel at *
+  split at h1
+  · next hs => simp only [hs, if_true] at h2 ⊢; rw [h2, h1]
+  · next hs => simp only [hs] at h2 ⊢; exact ⟨h2.1.trans h1.1, h2.2.trans h1.2⟩
+
+/-- `B` is a region of the heap `wB` that the running edit must not touch -/
+structure FInv (strict : Bool) (B : Nat → Prop) (wB : World) (s : St) : Prop where
+  bound : ∀ i, B i → i < s.w.length
+  same : ∀ i, B i → OptRel strict B (wB[i]?) (s.w[i]?)
+  sep : ∀ (i : Nat) (c : Cell), ¬ B i → s.w[i]? = some c → CellOut strict B c
+
+def FGoodAt (strict : Bool) (B : Nat → Prop) (wB : World) (m : M α) (s : St) (Q : α → St → Prop) : Prop :=
+  FInv strict B wB (m s).2 ∧ s.w.length ≤ (m s).2.w.length ∧ ∀ a, (m s).1 = .ok a → Q a (m s).2
 
 section
-variable {B : Nat → Prop} {wB : World}
+variable {strict : Bool} {B : Nat → Prop} {wB : World}
 
-theorem FGoodAt.pure {a : α} {s : St} {Q : α → St → Prop} (hI : FInv B wB s) (hQ : Q a s) :
-    FGoodAt B wB (Pure.pure a : M α) s Q :=
+theorem FGoodAt.pure {a : α} {s : St} {Q : α → St → Prop} (hI : FInv strict B wB s) (hQ : Q a s) :
+    FGoodAt strict B wB (Pure.pure a : M α) s Q :=
   ⟨hI, Nat.le_refl _, by intro b hb; cases hb; exact hQ⟩
 
-theorem FGoodAt.fail {e : Err} {s : St} {Q : α → St → Prop} (hI : FInv B wB s) :
-    FGoodAt B wB (Clone.fail e : M α) s Q :=
+theorem FGoodAt.fail {e : Err} {s : St} {Q : α → St → Prop} (hI : FInv strict B wB s) :
+    FGoodAt strict B wB (Clone.fail e : M α) s Q :=
   ⟨hI, Nat.le_refl _, by intro b hb; cases hb⟩
 
-theorem FGoodAt.raise {why : String} {s : St} {Q : α → St → Prop} (hI : FInv B wB s) :
-    FGoodAt B wB (Clone.raise why : M α) s Q := FGoodAt.fail hI
+theorem FGoodAt.raise {why : String} {s : St} {Q : α → St → Prop} (hI : FInv strict B wB s) :
+    FGoodAt strict B wB (Clone.raise why : M α) s Q := FGoodAt.fail hI
 
-theorem FGoodAt.unsupported {why : String} {s : St} {Q : α → St → Prop} (hI : FInv B wB s) :
-    FGoodAt B wB (Clone.unsupported why : M α) s Q := FGoodAt.fail hI
+theorem FGoodAt.unsupported {why : String} {s : St} {Q : α → St → Prop} (hI : FInv strict B wB s) :
+    FGoodAt strict B wB (Clone.unsupported why : M α) s Q := FGoodAt.fail hI
 
 theorem FGoodAt.bind {m : M α} {f : α → M β} {s : St} {Q : α → St → Prop} {R : β → St → Prop}
-    (hm : FGoodAt B wB m s Q)
-    (hf : ∀ a s1, FInv B wB s1 → s.w.length ≤ s1.w.length → Q a s1 → FGoodAt B wB (f a) s1 R) :
-    FGoodAt B wB (m >>= f) s R := by
+    (hm : FGoodAt strict B wB m s Q)
+    (hf : ∀ a s1, FInv strict B wB s1 → s.w.length ≤ s1.w.length → Q a s1 → FGoodAt strict B wB (f a) s1 R) :
+    FGoodAt strict B wB (m >>= f) s R := by
   obtain ⟨hI, hl, hq⟩ := hm
-  show FGoodAt B wB (M.bind m f) s R
+  show FGoodAt strict B wB (M.bind m f) s R
   unfold FGoodAt M.bind
   rcases hms : m s with ⟨r, s1⟩
   rw [hms] at hI hl hq
@@ -61,16 +91,16 @@ theorem FGoodAt.bind {m : M α} {f : α → M β} {s : St} {Q : α → St → Pr
     obtain ⟨hI2, hl2, hq2⟩ := hf a s1 hI hl (hq a rfl)
     exact ⟨hI2, Nat.le_trans hl hl2, hq2⟩
 
-theorem FGoodAt.mono {m : M α} {s : St} {Q R : α → St → Prop} (hm : FGoodAt B wB m s Q)
-    (h : ∀ a s1, FInv B wB s1 → s.w.length ≤ s1.w.length → Q a s1 → R a s1) :
-    FGoodAt B wB m s R :=
+theorem FGoodAt.mono {m : M α} {s : St} {Q R : α → St → Prop} (hm : FGoodAt strict B wB m s Q)
+    (h : ∀ a s1, FInv strict B wB s1 → s.w.length ≤ s1.w.length → Q a s1 → R a s1) :
+    FGoodAt strict B wB m s R :=
   ⟨hm.1, hm.2.1, fun a ha => h a _ hm.1 hm.2.1 (hm.2.2 a ha)⟩
 
 macro "fbind " h:term " with " a:ident s1:ident hI:ident hl:ident hq:ident : tactic =>
   `(tactic| (refine FGoodAt.bind $h ?_; intro $a $s1 $hI $hl $hq))
 
-theorem FInv.alloc {s : St} {c : Cell} (hI : FInv B wB s) (hc : CellOut B c) :
-    FInv B wB { s with w := s.w ++ [c] } := by
+theorem FInv.alloc {s : St} {c : Cell} (hI : FInv strict B wB s) (hc : CellOut strict B c) :
+    FInv strict B wB { s with w := s.w ++ [c] } := by
   refine ⟨?_, ?_, ?_⟩
   · intro i hi
     have := hI.bound i hi
@@ -97,16 +127,16 @@ theorem FInv.alloc {s : St} {c : Cell} (hI : FInv B wB s) (hc : CellOut B c) :
       exact hc
 
 /-- the fresh id is outside `B` -/
-theorem FGoodAt.alloc {s : St} {c : Cell} (hI : FInv B wB s) (hc : CellOut B c) :
-    FGoodAt B wB (Clone.alloc c) s (fun r s1 => ¬ B r ∧ r < s1.w.length) := by
+theorem FGoodAt.alloc {s : St} {c : Cell} (hI : FInv strict B wB s) (hc : CellOut strict B c) :
+    FGoodAt strict B wB (Clone.alloc c) s (fun r s1 => ¬ B r ∧ r < s1.w.length) := by
   refine ⟨hI.alloc hc, by simp [Clone.alloc], ?_⟩
   intro a ha
   simp only [Clone.alloc, Except.ok.injEq] at ha
   subst ha
   refine ⟨fun hb => Nat.lt_irrefl _ (hI.bound _ hb), by simp [Clone.alloc]⟩
 
-theorem FInv.set {s : St} {i : Nat} {c : Cell} (hI : FInv B wB s) (hi : ¬ B i) (hc : CellOut B c) :
-    FInv B wB { s with w := s.w.set i c } := by
+theorem FInv.set {s : St} {i : Nat} {c : Cell} (hI : FInv strict B wB s) (hi : ¬ B i) (hc : CellOut strict B c) :
+    FInv strict B wB { s with w := s.w.set i c } := by
   refine ⟨?_, ?_, ?_⟩
   · intro j hj
     simpa using hI.bound j hj
@@ -124,47 +154,68 @@ theorem FInv.set {s : St} {i : Nat} {c : Cell} (hI : FInv B wB s) (hi : ¬ B i) 
       · cases hc'
     · exact hI.sep j c' hj hc'
 
-theorem FGoodAt.set {s : St} {i : Nat} {c : Cell} (hI : FInv B wB s) (hi : ¬ B i)
-    (hc : CellOut B c) : FGoodAt B wB (setCell i c) s (fun _ _ => True) :=
+theorem FGoodAt.set {s : St} {i : Nat} {c : Cell} (hI : FInv strict B wB s) (hi : ¬ B i)
+    (hc : CellOut strict B c) : FGoodAt strict B wB (setCell i c) s (fun _ _ => True) :=
   ⟨hI.set hi hc, by simp [setCell], fun _ _ => trivial⟩
 
-theorem FGoodAt.readVal {s : St} {i : Nat} (hI : FInv B wB s) :
-    FGoodAt B wB (Clone.readVal i) s (fun r s1 => s1 = s ∧ s.w[i]? = some (.val r)) := by
+theorem FGoodAt.readVal {s : St} {i : Nat} (hI : FInv strict B wB s) :
+    FGoodAt strict B wB (Clone.readVal i) s (fun r s1 => s1 = s ∧ s.w[i]? = some (.val r)) := by
   unfold FGoodAt Clone.readVal
   split
   · next v h => exact ⟨hI, Nat.le_refl _, by intro a ha; cases ha; exact ⟨rfl, h⟩⟩
   · exact ⟨hI, Nat.le_refl _, by intro a ha; cases ha⟩
 
-theorem FGoodAt.readNode {s : St} {i : Nat} (hI : FInv B wB s) :
-    FGoodAt B wB (Clone.readNode i) s (fun r s1 => s1 = s ∧ s.w[i]? = some (.node r)) := by
+theorem FGoodAt.readNode {s : St} {i : Nat} (hI : FInv strict B wB s) :
+    FGoodAt strict B wB (Clone.readNode i) s (fun r s1 => s1 = s ∧ s.w[i]? = some (.node r)) := by
   unfold FGoodAt Clone.readNode
   split
   · next v h => exact ⟨hI, Nat.le_refl _, by intro a ha; cases ha; exact ⟨rfl, h⟩⟩
   · exact ⟨hI, Nat.le_refl _, by intro a ha; cases ha⟩
 
-theorem FGoodAt.readGraph {s : St} {i : Nat} (hI : FInv B wB s) :
-    FGoodAt B wB (Clone.readGraph i) s (fun r s1 => s1 = s ∧ s.w[i]? = some (.graph r)) := by
+theorem FGoodAt.readGraph {s : St} {i : Nat} (hI : FInv strict B wB s) :
+    FGoodAt strict B wB (Clone.readGraph i) s (fun r s1 => s1 = s ∧ s.w[i]? = some (.graph r)) := by
   unfold FGoodAt Clone.readGraph
   split
   · next v h => exact ⟨hI, Nat.le_refl _, by intro a ha; cases ha; exact ⟨rfl, h⟩⟩
   · exact ⟨hI, Nat.le_refl _, by intro a ha; cases ha⟩
 
-theorem FGoodAt.readType {s : St} {i : Nat} (hI : FInv B wB s) :
-    FGoodAt B wB (Clone.readType i) s (fun r s1 => s1 = s ∧ s.w[i]? = some (.type r)) := by
+theorem FGoodAt.readType {s : St} {i : Nat} (hI : FInv strict B wB s) :
+    FGoodAt strict B wB (Clone.readType i) s (fun r s1 => s1 = s ∧ s.w[i]? = some (.type r)) := by
   unfold FGoodAt Clone.readType
   split
   · next v h => exact ⟨hI, Nat.le_refl _, by intro a ha; cases ha; exact ⟨rfl, h⟩⟩
   · exact ⟨hI, Nat.le_refl _, by intro a ha; cases ha⟩
 
-theorem FGoodAt.readShape {s : St} {i : Nat} (hI : FInv B wB s) :
-    FGoodAt B wB (Clone.readShape i) s (fun r s1 => s1 = s ∧ s.w[i]? = some (.shape r)) := by
+theorem FGoodAt.readShape {s : St} {i : Nat} (hI : FInv strict B wB s) :
+    FGoodAt strict B wB (Clone.readShape i) s (fun r s1 => s1 = s ∧ s.w[i]? = some (.shape r)) := by
   unfold FGoodAt Clone.readShape
   split
   · next v h => exact ⟨hI, Nat.le_refl _, by intro a ha; cases ha; exact ⟨rfl, h⟩⟩
   · exact ⟨hI, Nat.le_refl _, by intro a ha; cases ha⟩
 
-theorem FGoodAt.readDict {s : St} {i : Nat} (hI : FInv B wB s) :
-    FGoodAt B wB (Clone.readDict i) s (fun r s1 => s1 = s ∧ s.w[i]? = some (.dict r)) := by
+theorem FGoodAt.readTensor {s : St} {i : Nat} (hI : FInv strict B wB s) :
+    FGoodAt strict B wB (Clone.readTensor i) s (fun r s1 => s1 = s ∧ s.w[i]? = some (.tensor r)) := by
+  unfold FGoodAt Clone.readTensor
+  split
+  · next v h => exact ⟨hI, Nat.le_refl _, by intro a ha; cases ha; exact ⟨rfl, h⟩⟩
+  · exact ⟨hI, Nat.le_refl _, by intro a ha; cases ha⟩
+
+theorem FGoodAt.readFunc {s : St} {i : Nat} (hI : FInv strict B wB s) :
+    FGoodAt strict B wB (Clone.readFunc i) s (fun r s1 => s1 = s ∧ s.w[i]? = some (.func r)) := by
+  unfold FGoodAt Clone.readFunc
+  split
+  · next v h => exact ⟨hI, Nat.le_refl _, by intro a ha; cases ha; exact ⟨rfl, h⟩⟩
+  · exact ⟨hI, Nat.le_refl _, by intro a ha; cases ha⟩
+
+theorem FGoodAt.readModel {s : St} {i : Nat} (hI : FInv strict B wB s) :
+    FGoodAt strict B wB (Clone.readModel i) s (fun r s1 => s1 = s ∧ s.w[i]? = some (.model r)) := by
+  unfold FGoodAt Clone.readModel
+  split
+  · next v h => exact ⟨hI, Nat.le_refl _, by intro a ha; cases ha; exact ⟨rfl, h⟩⟩
+  · exact ⟨hI, Nat.le_refl _, by intro a ha; cases ha⟩
+
+theorem FGoodAt.readDict {s : St} {i : Nat} (hI : FInv strict B wB s) :
+    FGoodAt strict B wB (Clone.readDict i) s (fun r s1 => s1 = s ∧ s.w[i]? = some (.dict r)) := by
   unfold FGoodAt Clone.readDict
   split
   · next v h => exact ⟨hI, Nat.le_refl _, by intro a ha; cases ha; exact ⟨rfl, h⟩⟩
@@ -172,10 +223,10 @@ theorem FGoodAt.readDict {s : St} {i : Nat} (hI : FInv B wB s) :
 
 end
 section
-variable {B : Nat → Prop} {wB : World}
+variable {strict : Bool} {B : Nat → Prop} {wB : World}
 
-theorem ownerDict_good {s : St} (o : Nat) (which : Which) (hI : FInv B wB s) (ho : ¬ B o) :
-    FGoodAt B wB (ownerDict o which) s (fun r s1 => s1 = s ∧ ¬ B r) := by
+theorem ownerDict_good {s : St} (o : Nat) (which : Which) (hI : FInv strict B wB s) (ho : ¬ B o) :
+    FGoodAt strict B wB (ownerDict o which) s (fun r s1 => s1 = s ∧ ¬ B r) := by
   unfold FGoodAt ownerDict
   split
   · next v h =>
@@ -192,44 +243,110 @@ theorem ownerDict_good {s : St} (o : Nat) (which : Which) (hI : FInv B wB s) (ho
     exact ⟨hI, Nat.le_refl _, by intro a ha; cases ha; exact ⟨rfl, by cases which <;> assumption⟩⟩
   · exact ⟨hI, Nat.le_refl _, by intro a ha; cases ha⟩
 
-theorem fremoveUse_good {s : St} (v n i : Nat) (hI : FInv B wB s) (hv : ¬ B v) :
-    FGoodAt B wB (removeUse v n i) s (fun _ _ => True) := by
+theorem usesByB_filter_ne {B : Nat → Prop} {us : List (Nat × Nat)} {n i : Nat} (hn : ¬ B n) :
+    (us.filter (fun u => u != (n, i))).filter (fun u => @decide (B u.1) (Classical.propDecidable _)) =
+      us.filter (fun u => @decide (B u.1) (Classical.propDecidable _)) := by
+  rw [List.filter_filter]
+  apply List.filter_congr
+  intro u _
+  by_cases hu : B u.1
+  · have : u ≠ (n, i) := by intro h; rw [h] at hu; exact hn hu
+    simp [hu, this]
+  · simp [hu]
+
+/-- writing the users of a value of the protected region by a node outside it (weak mode only) -/
+theorem FInv.setUsesIn {s : St} {v : Nat} {vs : ValueS} {us : List (Nat × Nat)}
+    (hI : FInv false B wB s) (hv : s.w[v]? = some (.val vs))
+    (hus : us.filter (fun u => @decide (B u.1) (Classical.propDecidable _)) =
+      vs.uses.filter (fun u => @decide (B u.1) (Classical.propDecidable _))) :
+    FInv false B wB { s with w := s.w.set v (.val { vs with uses := us }) } := by
+  refine ⟨?_, ?_, ?_⟩
+  · intro j hj; simpa using hI.bound j hj
+  · intro j hj
+    by_cases hjv : v = j
+    · subst hjv
+      have h0 := hI.same v hj
+      rw [hv] at h0
+      simp only
+      rw [List.getElem?_set_self (lt_of_getElem? hv)]
+      cases hw : wB[v]? with
+      | none => rw [hw] at h0; exact h0
+      | some c0 =>
+        rw [hw] at h0
+        exact CellRel.trans h0 (by
+          show CellRel false B (.val vs) (.val { vs with uses := us })
+          unfold CellRel
+          simp only [Bool.false_eq_true, if_false]
+          exact ⟨rfl, hus⟩)
+    · simp only
+      rw [List.getElem?_set_ne hjv]
+      exact hI.same j hj
+  · intro j c' hj hc'
+    simp only at hc'
+    rw [List.getElem?_set] at hc'
+    split at hc'
+    · split at hc'
+      · next hjv _ =>
+        cases hc'
+        subst hjv
+        exact (show CellOut false B (.val { vs with uses := us }) from hI.sep v (.val vs) hj hv)
+      · cases hc'
+    · exact hI.sep j c' hj hc'
+
+theorem fremoveUse_good {s : St} (v n i : Nat) (hI : FInv strict B wB s) (hv : strict = true → ¬ B v)
+    (hn : ¬ B n) : FGoodAt strict B wB (removeUse v n i) s (fun _ _ => True) := by
   unfold removeUse
   fbind (FGoodAt.readVal hI) with vs s1 hI1 hl1 hq1
   obtain ⟨rfl, h⟩ := hq1
   split
-  · exact FGoodAt.set hI1 hv (show CellOut B (.val { vs with uses := _ }) from hI1.sep v (.val vs) hv h)
+  · by_cases hvB : B v
+    · cases strict with
+      | true => exact absurd hvB (hv rfl)
+      | false =>
+        exact ⟨hI1.setUsesIn h (usesByB_filter_ne hn), by simp [setCell], fun _ _ => trivial⟩
+    · exact FGoodAt.set hI1 hvB (show CellOut strict B (.val { vs with uses := _ }) from hI1.sep v (.val vs) hvB h)
   · exact FGoodAt.raise hI1
 
-theorem faddUse_good {s : St} (v n i : Nat) (hI : FInv B wB s) (hv : ¬ B v) :
-    FGoodAt B wB (addUse v n i) s (fun _ _ => True) := by
+theorem faddUse_good {s : St} (v n i : Nat) (hI : FInv strict B wB s) (hv : strict = true → ¬ B v)
+    (hn : ¬ B n) : FGoodAt strict B wB (addUse v n i) s (fun _ _ => True) := by
   unfold addUse
   fbind (FGoodAt.readVal hI) with vs s1 hI1 hl1 hq1
   obtain ⟨rfl, h⟩ := hq1
-  exact FGoodAt.set hI1 hv (show CellOut B (.val { vs with uses := _ }) from hI1.sep v (.val vs) hv h)
+  by_cases hvB : B v
+  · cases strict with
+    | true => exact absurd hvB (hv rfl)
+    | false =>
+      refine ⟨hI1.setUsesIn h ?_, by simp [setCell], fun _ _ => trivial⟩
+      split
+      · rfl
+      · rw [List.filter_append]
+        have : List.filter (fun u => @decide (B u.1) (Classical.propDecidable _)) [(n, i)] = [] := by
+          simp [List.filter, hn]
+        rw [this]; simp
+  · exact FGoodAt.set hI1 hvB (show CellOut strict B (.val { vs with uses := _ }) from hI1.sep v (.val vs) hvB h)
 
-theorem faddUses_good (n : Nat) :
-    ∀ (l : List (Option Nat)) (i : Nat) (s : St), FInv B wB s → (∀ v, some v ∈ l → ¬ B v) →
-      FGoodAt B wB (addUses n i l) s (fun _ _ => True)
+theorem faddUses_good (n : Nat) (hn : ¬ B n) :
+    ∀ (l : List (Option Nat)) (i : Nat) (s : St), FInv strict B wB s → (∀ v, some v ∈ l → ¬ B v) →
+      FGoodAt strict B wB (addUses n i l) s (fun _ _ => True)
   | [], i, s, hI, _ => FGoodAt.pure hI trivial
   | none :: rest, i, s, hI, hl => by
     unfold addUses
-    exact faddUses_good n rest (i + 1) s hI (fun v hv => hl v (List.mem_cons_of_mem _ hv))
+    exact faddUses_good n hn rest (i + 1) s hI (fun v hv => hl v (List.mem_cons_of_mem _ hv))
   | some v :: rest, i, s, hI, hl => by
     unfold addUses
-    fbind (faddUse_good v n i hI (hl v List.mem_cons_self)) with u s1 hI1 hl1 hq1
-    exact faddUses_good n rest (i + 1) s1 hI1 (fun v hv => hl v (List.mem_cons_of_mem _ hv))
+    fbind (faddUse_good v n i hI (fun _ => hl v List.mem_cons_self) hn) with u s1 hI1 hl1 hq1
+    exact faddUses_good n hn rest (i + 1) s1 hI1 (fun v hv => hl v (List.mem_cons_of_mem _ hv))
 
 theorem fmkOutputs_good (n : Nat) :
-    ∀ (k i : Nat) (s : St), FInv B wB s →
-      FGoodAt B wB (mkOutputs n i k) s (fun r _ => ∀ v ∈ r, ¬ B v)
+    ∀ (k i : Nat) (s : St), FInv strict B wB s →
+      FGoodAt strict B wB (mkOutputs n i k) s (fun r _ => ∀ v ∈ r, ¬ B v)
   | 0, i, s, hI => FGoodAt.pure hI (by simp)
   | k + 1, i, s, hI => by
     unfold mkOutputs
     fbind (FGoodAt.alloc hI (c := .dict {}) trivial) with pr s1 hI1 hl1 hpr
     fbind (FGoodAt.alloc hI1 (c := .dict {}) trivial) with me s2 hI2 hl2 hme
-    have hc : CellOut B (.val { producer := some n, index := some i, props := pr, mstore := me }) :=
-      ⟨trivial, trivial, hpr.1, hme.1, trivial⟩
+    have hc : CellOut strict B (.val { producer := some n, index := some i, props := pr, mstore := me }) :=
+      ⟨trivial, trivial, hpr.1, hme.1, trivial, trivial⟩
     fbind (FGoodAt.alloc hI2 hc) with v s3 hI3 hl3 hv
     fbind (fmkOutputs_good n k (i + 1) s3 hI3) with rest s4 hI4 hl4 hrest
     refine FGoodAt.pure hI4 ?_
@@ -239,8 +356,8 @@ theorem fmkOutputs_good (n : Nat) :
     · exact hrest x h
 
 theorem fsetOutputNames_good :
-    ∀ (vs : List Nat) (nms : List String) (s : St), FInv B wB s → (∀ v ∈ vs, ¬ B v) →
-      FGoodAt B wB (setOutputNames vs nms) s (fun _ _ => True)
+    ∀ (vs : List Nat) (nms : List String) (s : St), FInv strict B wB s → (∀ v ∈ vs, ¬ B v) →
+      FGoodAt strict B wB (setOutputNames vs nms) s (fun _ _ => True)
   | [], _, s, hI, _ => by unfold setOutputNames; exact FGoodAt.pure hI trivial
   | _ :: _, [], s, hI, _ => by unfold setOutputNames; exact FGoodAt.pure hI trivial
   | v :: vs, nm :: nms, s, hI, h => by
@@ -248,14 +365,14 @@ theorem fsetOutputNames_good :
     fbind (FGoodAt.readVal hI) with x s1 hI1 hl1 hq1
     obtain ⟨rfl, hx⟩ := hq1
     have hv := h v List.mem_cons_self
-    fbind (FGoodAt.set hI1 hv (show CellOut B (.val { x with name := some nm }) from hI1.sep v (.val x) hv hx))
+    fbind (FGoodAt.set hI1 hv (show CellOut strict B (.val { x with name := some nm }) from hI1.sep v (.val x) hv hx))
       with u s2 hI2 hl2 hq2
     exact fsetOutputNames_good vs nms s2 hI2 (fun y hy => h y (List.mem_cons_of_mem _ hy))
 
 end
 
 section
-variable {B : Nat → Prop} {wB : World}
+variable {strict : Bool} {B : Nat → Prop} {wB : World}
 
 /-- every argument of the edit is outside `B` -/
 def ArgsOut (B : Nat → Prop) (e : Edit) : Prop := ∀ a ∈ e.args, ¬ B a
@@ -265,15 +382,27 @@ theorem optOut_of_toList {B : Nat → Prop} {o : Option Nat} (h : ∀ a ∈ o.to
   | none => trivial
   | some x => exact h x (by simp)
 
-theorem applyEdit_frame (e : Edit) {s : St} (hI : FInv B wB s) (ha : ArgsOut B e) :
-    FGoodAt B wB (applyEdit e) s (fun _ _ => True) := by
+theorem applyEdit0_frame (e : Edit) {s : St} (hI : FInv strict B wB s) (ha : ArgsOut B e) :
+    FGoodAt strict B wB (applyEdit0 e) s (fun _ _ => True) := by
   cases e with
   | setName v nm =>
     have hv : ¬ B v := ha v (by simp [Edit.args])
-    unfold applyEdit
+    unfold applyEdit0
     fbind (FGoodAt.readVal hI) with vs s1 hI1 hl1 hq1
     obtain ⟨rfl, h⟩ := hq1
     have hvo := hI1.sep v (.val vs) hv h
+    have hren : ∀ (x : Option String) (s2 : St), FInv strict B wB s2 →
+        FGoodAt strict B wB (renameTensor vs.const x) s2 (fun _ _ => True) := by
+      intro x s2 hI2
+      unfold renameTensor
+      split
+      · exact FGoodAt.pure hI2 trivial
+      · next t ht =>
+        have htB : ¬ B t := by
+          obtain ⟨_, _, _, _, _, k⟩ := hvo
+          rw [ht] at k; exact k
+        fbind (FGoodAt.readTensor hI2) with nm0 s3 hI3 hl3 hq3
+        exact FGoodAt.set hI3 htB (c := .tensor x) trivial
     split
     · exact FGoodAt.pure hI1 trivial
     · split
@@ -284,46 +413,48 @@ theorem applyEdit_frame (e : Edit) {s : St} (hI : FInv B wB s) (ha : ArgsOut B e
           · fbind (FGoodAt.readGraph hI1) with gs s2 hI2 hl2 hq2
             obtain ⟨rfl, hgs⟩ := hq2
             have hgB : ¬ B gid := by
-              obtain ⟨_, _, _, _, e⟩ := hvo
+              obtain ⟨_, _, _, _, e, _⟩ := hvo
               rw [hgid] at e; exact e
             have hgo := hI2.sep gid (.graph gs) hgB hgs
             split
             · exact FGoodAt.raise hI2
-            · fbind (FGoodAt.set hI2 hv (show CellOut B (.val { vs with name := _ }) from hvo))
+            · fbind (hren _ s2 hI2) with u0 s2' hI2' hl2' hq2'
+              fbind (FGoodAt.set hI2' hv (show CellOut strict B (.val { vs with name := _ }) from hvo))
                 with u s3 hI3 hl3 hq3
               split
-              · exact FGoodAt.set hI3 hgB (show CellOut B (.graph { gs with inits := _ }) from hgo)
+              · exact FGoodAt.set hI3 hgB (show CellOut strict B (.graph { gs with inits := _ }) from hgo)
               · exact FGoodAt.raise hI3
         · exact FGoodAt.raise hI1
-      · exact FGoodAt.set hI1 hv (show CellOut B (.val { vs with name := nm }) from hvo)
+      · fbind (hren _ s1 hI1) with u0 s2 hI2 hl2 hq2
+        exact FGoodAt.set hI2 hv (show CellOut strict B (.val { vs with name := nm }) from hvo)
   | setType v t =>
     have hv : ¬ B v := ha v (by simp [Edit.args])
-    unfold applyEdit
+    unfold applyEdit0
     fbind (FGoodAt.readVal hI) with vs s1 hI1 hl1 hq1
     obtain ⟨rfl, h⟩ := hq1
     obtain ⟨_, b, c, d, e⟩ := hI1.sep v (.val vs) hv h
     cases t with
-    | none => exact FGoodAt.set hI1 hv (show CellOut B (.val { vs with type := none }) from ⟨trivial, b, c, d, e⟩)
+    | none => exact FGoodAt.set hI1 hv (show CellOut strict B (.val { vs with type := none }) from ⟨trivial, b, c, d, e⟩)
     | some ts =>
       simp only
       fbind (FGoodAt.alloc hI1 (c := .type ts) trivial) with i s2 hI2 hl2 hi
-      exact FGoodAt.set hI2 hv (show CellOut B (.val { vs with type := some i }) from ⟨hi.1, b, c, d, e⟩)
+      exact FGoodAt.set hI2 hv (show CellOut strict B (.val { vs with type := some i }) from ⟨hi.1, b, c, d, e⟩)
   | setDtype v dt =>
     have hv : ¬ B v := ha v (by simp [Edit.args])
-    unfold applyEdit
+    unfold applyEdit0
     fbind (FGoodAt.readVal hI) with vs s1 hI1 hl1 hq1
     obtain ⟨rfl, h⟩ := hq1
     obtain ⟨a, b, c, d, e⟩ := hI1.sep v (.val vs) hv h
     split
     · fbind (FGoodAt.alloc hI1 (c := .type { dtype := dt }) trivial) with i s2 hI2 hl2 hi
-      exact FGoodAt.set hI2 hv (show CellOut B (.val { vs with type := some i }) from ⟨hi.1, b, c, d, e⟩)
+      exact FGoodAt.set hI2 hv (show CellOut strict B (.val { vs with type := some i }) from ⟨hi.1, b, c, d, e⟩)
     · next t ht =>
       rw [ht] at a
       fbind (FGoodAt.readType hI1) with ts s2 hI2 hl2 hq2
       exact FGoodAt.set hI2 a (c := .type { ts with dtype := dt }) trivial
   | setTypeDenot v dn =>
     have hv : ¬ B v := ha v (by simp [Edit.args])
-    unfold applyEdit
+    unfold applyEdit0
     fbind (FGoodAt.readVal hI) with vs s1 hI1 hl1 hq1
     obtain ⟨rfl, h⟩ := hq1
     obtain ⟨a, b, c, d, e⟩ := hI1.sep v (.val vs) hv h
@@ -337,19 +468,19 @@ theorem applyEdit_frame (e : Edit) {s : St} (hI : FInv B wB s) (ha : ArgsOut B e
       · exact FGoodAt.set hI2 a (c := .type { ts with wrap := _ }) trivial
   | setShape v sh =>
     have hv : ¬ B v := ha v (by simp [Edit.args])
-    unfold applyEdit
+    unfold applyEdit0
     fbind (FGoodAt.readVal hI) with vs s1 hI1 hl1 hq1
     obtain ⟨rfl, h⟩ := hq1
     obtain ⟨a, _, c, d, e⟩ := hI1.sep v (.val vs) hv h
     cases sh with
-    | none => exact FGoodAt.set hI1 hv (show CellOut B (.val { vs with shape := none }) from ⟨a, trivial, c, d, e⟩)
+    | none => exact FGoodAt.set hI1 hv (show CellOut strict B (.val { vs with shape := none }) from ⟨a, trivial, c, d, e⟩)
     | some ss =>
       simp only
       fbind (FGoodAt.alloc hI1 (c := .shape ss) trivial) with i s2 hI2 hl2 hi
-      exact FGoodAt.set hI2 hv (show CellOut B (.val { vs with shape := some i }) from ⟨a, hi.1, c, d, e⟩)
+      exact FGoodAt.set hI2 hv (show CellOut strict B (.val { vs with shape := some i }) from ⟨a, hi.1, c, d, e⟩)
   | setDim v i d =>
     have hv : ¬ B v := ha v (by simp [Edit.args])
-    unfold applyEdit
+    unfold applyEdit0
     fbind (FGoodAt.readVal hI) with vs s1 hI1 hl1 hq1
     obtain ⟨rfl, h⟩ := hq1
     obtain ⟨_, b, _, _, _⟩ := hI1.sep v (.val vs) hv h
@@ -365,7 +496,7 @@ theorem applyEdit_frame (e : Edit) {s : St} (hI : FInv B wB s) (ha : ArgsOut B e
         · exact FGoodAt.raise hI2
   | setDimDenot v i dn =>
     have hv : ¬ B v := ha v (by simp [Edit.args])
-    unfold applyEdit
+    unfold applyEdit0
     fbind (FGoodAt.readVal hI) with vs s1 hI1 hl1 hq1
     obtain ⟨rfl, h⟩ := hq1
     obtain ⟨_, b, _, _, _⟩ := hI1.sep v (.val vs) hv h
@@ -379,26 +510,28 @@ theorem applyEdit_frame (e : Edit) {s : St} (hI : FInv B wB s) (ha : ArgsOut B e
       · exact FGoodAt.raise hI2
   | setConst v t =>
     have hv : ¬ B v := ha v (by simp [Edit.args])
-    unfold applyEdit
+    unfold applyEdit0
     fbind (FGoodAt.readVal hI) with vs s1 hI1 hl1 hq1
     obtain ⟨rfl, h⟩ := hq1
-    exact FGoodAt.set hI1 hv (show CellOut B (.val { vs with const := t }) from hI1.sep v (.val vs) hv h)
+    obtain ⟨a, b, c, d, e, _⟩ := hI1.sep v (.val vs) hv h
+    have ht : OptOut B t := optOut_of_toList (fun x hx => ha x (by simp [Edit.args]; exact .inr (by simpa using hx)))
+    exact FGoodAt.set hI1 hv (show CellOut strict B (.val { vs with const := t }) from ⟨a, b, c, d, e, ht⟩)
   | setDoc v d =>
     have hv : ¬ B v := ha v (by simp [Edit.args])
-    unfold applyEdit
+    unfold applyEdit0
     fbind (FGoodAt.readVal hI) with vs s1 hI1 hl1 hq1
     obtain ⟨rfl, h⟩ := hq1
-    exact FGoodAt.set hI1 hv (show CellOut B (.val { vs with doc := d }) from hI1.sep v (.val vs) hv h)
+    exact FGoodAt.set hI1 hv (show CellOut strict B (.val { vs with doc := d }) from hI1.sep v (.val vs) hv h)
   | dictSet o which k x =>
     have ho : ¬ B o := ha o (by simp [Edit.args])
-    unfold applyEdit
+    unfold applyEdit0
     fbind (ownerDict_good o which hI ho) with di s1 hI1 hl1 hq1
     obtain ⟨rfl, hdi⟩ := hq1
     fbind (FGoodAt.readDict hI1) with d s2 hI2 hl2 hq2
     exact FGoodAt.set hI2 hdi (c := .dict _) trivial
   | dictDel o which k =>
     have ho : ¬ B o := ha o (by simp [Edit.args])
-    unfold applyEdit
+    unfold applyEdit0
     fbind (ownerDict_good o which hI ho) with di s1 hI1 hl1 hq1
     obtain ⟨rfl, hdi⟩ := hq1
     fbind (FGoodAt.readDict hI1) with d s2 hI2 hl2 hq2
@@ -407,7 +540,7 @@ theorem applyEdit_frame (e : Edit) {s : St} (hI : FInv B wB s) (ha : ArgsOut B e
     · exact FGoodAt.raise hI2
   | metaInvalidate o k =>
     have ho : ¬ B o := ha o (by simp [Edit.args])
-    unfold applyEdit
+    unfold applyEdit0
     fbind (ownerDict_good o .mstore hI ho) with di s1 hI1 hl1 hq1
     obtain ⟨rfl, hdi⟩ := hq1
     fbind (FGoodAt.readDict hI1) with d s2 hI2 hl2 hq2
@@ -415,22 +548,22 @@ theorem applyEdit_frame (e : Edit) {s : St} (hI : FInv B wB s) (ha : ArgsOut B e
   | replaceInput n i v =>
     have hn : ¬ B n := ha n (by simp [Edit.args])
     have hvB : OptOut B v := optOut_of_toList (fun a h => ha a (by simp [Edit.args]; exact .inr (by simpa using h)))
-    unfold applyEdit
+    unfold applyEdit0
     fbind (FGoodAt.readNode hI) with ns s1 hI1 hl1 hq1
     obtain ⟨rfl, h⟩ := hq1
     obtain ⟨hin, hp, hm⟩ := hI1.sep n (.node ns) hn h
     split
     · next hlt =>
-      have hset : CellOut B (.node { ns with inputs := ns.inputs.set i v }) := by
+      have hset : CellOut strict B (.node { ns with inputs := ns.inputs.set i v }) := by
         refine ⟨?_, hp, hm⟩
-        intro x hx
+        intro hs x hx
         rcases List.mem_or_eq_of_mem_set hx with h1 | h1
-        · exact hin x h1
+        · exact hin hs x h1
         · rw [← h1] at hvB; exact hvB
       fbind (FGoodAt.set hI1 hn hset) with u s2 hI2 hl2 hq2
-      have hold : ∀ o, (ns.inputs[i]?).join = some o → ¬ B o := by
-        intro o ho
-        apply hin o
+      have hold : ∀ o, (ns.inputs[i]?).join = some o → strict = true → ¬ B o := by
+        intro o ho hs
+        apply hin hs o
         cases hget : ns.inputs[i]? with
         | none => rw [hget] at ho; cases ho
         | some x =>
@@ -438,17 +571,17 @@ theorem applyEdit_frame (e : Edit) {s : St} (hI : FInv B wB s) (ha : ArgsOut B e
           simp at ho
           subst ho
           exact List.mem_of_getElem? hget
-      have hrem : FGoodAt B wB (removeUseOpt (ns.inputs[i]?).join n i) s2 (fun _ _ => True) := by
+      have hrem : FGoodAt strict B wB (removeUseOpt (ns.inputs[i]?).join n i) s2 (fun _ _ => True) := by
         unfold removeUseOpt
         split
-        · next o ho => exact fremoveUse_good o n i hI2 (hold o ho)
+        · next o ho => exact fremoveUse_good o n i hI2 (hold o ho) hn
         · exact FGoodAt.pure hI2 trivial
       fbind hrem with u3 s3 hI3 hl3 hq3
-      have hadd : FGoodAt B wB (addUseOpt v n i) s3 (fun _ _ => True) := by
+      have hadd : FGoodAt strict B wB (addUseOpt v n i) s3 (fun _ _ => True) := by
         unfold addUseOpt
         cases v with
         | none => exact FGoodAt.pure hI3 trivial
-        | some x => exact faddUse_good x n i hI3 hvB
+        | some x => exact faddUse_good x n i hI3 (fun _ => hvB) hn
       fbind hadd with u4 s4 hI4 hl4 hq4
       unfold dropShardingStep
       split
@@ -466,48 +599,48 @@ theorem applyEdit_frame (e : Edit) {s : St} (hI : FInv B wB s) (ha : ArgsOut B e
     · exact FGoodAt.raise hI1
   | setNodeName n nm =>
     have hn : ¬ B n := ha n (by simp [Edit.args])
-    unfold applyEdit
+    unfold applyEdit0
     fbind (FGoodAt.readNode hI) with ns s1 hI1 hl1 hq1
     obtain ⟨rfl, h⟩ := hq1
-    exact FGoodAt.set hI1 hn (show CellOut B (.node { ns with name := nm }) from hI1.sep n (.node ns) hn h)
+    exact FGoodAt.set hI1 hn (show CellOut strict B (.node { ns with name := nm }) from hI1.sep n (.node ns) hn h)
   | setOpType n nm =>
     have hn : ¬ B n := ha n (by simp [Edit.args])
-    unfold applyEdit
+    unfold applyEdit0
     fbind (FGoodAt.readNode hI) with ns s1 hI1 hl1 hq1
     obtain ⟨rfl, h⟩ := hq1
-    exact FGoodAt.set hI1 hn (show CellOut B (.node { ns with opType := nm }) from hI1.sep n (.node ns) hn h)
+    exact FGoodAt.set hI1 hn (show CellOut strict B (.node { ns with opType := nm }) from hI1.sep n (.node ns) hn h)
   | setAttr n k p =>
     have hn : ¬ B n := ha n (by simp [Edit.args])
-    unfold applyEdit
+    unfold applyEdit0
     fbind (FGoodAt.readNode hI) with ns s1 hI1 hl1 hq1
     obtain ⟨rfl, h⟩ := hq1
     have := hI1.sep n (.node ns) hn h
     fbind (FGoodAt.alloc hI1 (c := .attr { name := k, v := .plain p }) trivial) with a s2 hI2 hl2 hq2
-    exact FGoodAt.set hI2 hn (show CellOut B (.node { ns with attrs := _ }) from this)
+    exact FGoodAt.set hI2 hn (show CellOut strict B (.node { ns with attrs := _ }) from this)
   | delAttr n k =>
     have hn : ¬ B n := ha n (by simp [Edit.args])
-    unfold applyEdit
+    unfold applyEdit0
     fbind (FGoodAt.readNode hI) with ns s1 hI1 hl1 hq1
     obtain ⟨rfl, h⟩ := hq1
     split
-    · exact FGoodAt.set hI1 hn (show CellOut B (.node { ns with attrs := _ }) from hI1.sep n (.node ns) hn h)
+    · exact FGoodAt.set hI1 hn (show CellOut strict B (.node { ns with attrs := _ }) from hI1.sep n (.node ns) hn h)
     · exact FGoodAt.raise hI1
   | setGraphName g nm =>
     have hg : ¬ B g := ha g (by simp [Edit.args])
-    unfold applyEdit
+    unfold applyEdit0
     fbind (FGoodAt.readGraph hI) with gs s1 hI1 hl1 hq1
     obtain ⟨rfl, h⟩ := hq1
-    exact FGoodAt.set hI1 hg (show CellOut B (.graph { gs with name := nm }) from hI1.sep g (.graph gs) hg h)
+    exact FGoodAt.set hI1 hg (show CellOut strict B (.graph { gs with name := nm }) from hI1.sep g (.graph gs) hg h)
   | setOpset g dom ver =>
     have hg : ¬ B g := ha g (by simp [Edit.args])
-    unfold applyEdit
+    unfold applyEdit0
     fbind (FGoodAt.readGraph hI) with gs s1 hI1 hl1 hq1
     obtain ⟨rfl, h⟩ := hq1
-    exact FGoodAt.set hI1 hg (show CellOut B (.graph { gs with opsets := _ }) from hI1.sep g (.graph gs) hg h)
+    exact FGoodAt.set hI1 hg (show CellOut strict B (.graph { gs with opsets := _ }) from hI1.sep g (.graph gs) hg h)
   | removeNode g n =>
     have hg : ¬ B g := ha g (by simp [Edit.args])
     have hn : ¬ B n := ha n (by simp [Edit.args])
-    unfold applyEdit
+    unfold applyEdit0
     fbind (FGoodAt.readGraph hI) with gs s1 hI1 hl1 hq1
     obtain ⟨rfl, hgs⟩ := hq1
     fbind (FGoodAt.readNode hI1) with ns s2 hI2 hl2 hq2
@@ -516,9 +649,9 @@ theorem applyEdit_frame (e : Edit) {s : St} (hI : FInv B wB s) (ha : ArgsOut B e
     · exact FGoodAt.unsupported hI2
     · split
       · exact FGoodAt.raise hI2
-      · fbind (FGoodAt.set hI2 hn (show CellOut B (.node { ns with graph := none }) from hI2.sep n (.node ns) hn hns))
+      · fbind (FGoodAt.set hI2 hn (show CellOut strict B (.node { ns with graph := none }) from hI2.sep n (.node ns) hn hns))
           with u s3 hI3 hl3 hq3
-        exact FGoodAt.set hI3 hg (show CellOut B (.graph { gs with nodes := _ }) from hI2.sep g (.graph gs) hg hgs)
+        exact FGoodAt.set hI3 hg (show CellOut strict B (.graph { gs with nodes := _ }) from hI2.sep g (.graph gs) hg hgs)
   | appendNode g name op inputs outNames =>
     have hg : ¬ B g := ha g (by simp [Edit.args])
     have hins : ∀ v, some v ∈ inputs → ¬ B v := by
@@ -526,35 +659,36 @@ theorem applyEdit_frame (e : Edit) {s : St} (hI : FInv B wB s) (ha : ArgsOut B e
       apply ha v
       simp only [Edit.args, List.mem_cons, List.mem_filterMap, id]
       exact .inr ⟨some v, hv, rfl⟩
-    unfold applyEdit
+    unfold applyEdit0
     fbind (FGoodAt.readGraph hI) with gs s1 hI1 hl1 hq1
     obtain ⟨rfl, hgs⟩ := hq1
     split
     · exact FGoodAt.unsupported hI1
     · fbind (FGoodAt.alloc hI1 (c := .dict {}) trivial) with pr s2 hI2 hl2 hpr
       fbind (FGoodAt.alloc hI2 (c := .dict {}) trivial) with me s3 hI3 hl3 hme
-      have hc : CellOut B (.node { name := some name, opType := op, inputs := inputs, props := pr,
-                                   mstore := me }) := ⟨hins, hpr.1, hme.1⟩
+      have hc : CellOut strict B
+          (.node { name := some name, opType := op, inputs := inputs, props := pr, mstore := me }) :=
+        ⟨fun _ => hins, hpr.1, hme.1⟩
       fbind (FGoodAt.alloc hI3 hc) with n s4 hI4 hl4 hn
       fbind (fmkOutputs_good n outNames.length 0 s4 hI4) with outs s5 hI5 hl5 houts
       fbind (FGoodAt.readNode hI5) with nn s6 hI6 hl6 hq6
       obtain ⟨rfl, hnn⟩ := hq6
-      fbind (FGoodAt.set hI6 hn.1 (show CellOut B (.node { nn with outputs := outs }) from
+      fbind (FGoodAt.set hI6 hn.1 (show CellOut strict B (.node { nn with outputs := outs }) from
         hI6.sep n (.node nn) hn.1 hnn)) with u s7 hI7 hl7 hq7
-      fbind (faddUses_good n inputs 0 s7 hI7 hins) with u2 s8 hI8 hl8 hq8
+      fbind (faddUses_good n hn.1 inputs 0 s7 hI7 hins) with u2 s8 hI8 hl8 hq8
       fbind (fsetOutputNames_good outs outNames s8 hI8 houts) with u3 s9 hI9 hl9 hq9
       fbind (FGoodAt.readNode hI9) with nn2 s10 hI10 hl10 hq10
       obtain ⟨rfl, hnn2⟩ := hq10
-      fbind (FGoodAt.set hI10 hn.1 (show CellOut B (.node { nn2 with graph := some g }) from
+      fbind (FGoodAt.set hI10 hn.1 (show CellOut strict B (.node { nn2 with graph := some g }) from
         hI10.sep n (.node nn2) hn.1 hnn2)) with u4 s11 hI11 hl11 hq11
       fbind (FGoodAt.readGraph hI11) with gs2 s12 hI12 hl12 hq12
       obtain ⟨rfl, hgs2⟩ := hq12
-      exact FGoodAt.set hI12 hg (show CellOut B (.graph { gs2 with nodes := _ }) from
+      exact FGoodAt.set hI12 hg (show CellOut strict B (.graph { gs2 with nodes := _ }) from
         hI12.sep g (.graph gs2) hg hgs2)
   | appendOutput g v =>
     have hg : ¬ B g := ha g (by simp [Edit.args])
     have hv : ¬ B v := ha v (by simp [Edit.args])
-    unfold applyEdit
+    unfold applyEdit0
     fbind (FGoodAt.readGraph hI) with gs s1 hI1 hl1 hq1
     obtain ⟨rfl, hgs⟩ := hq1
     obtain ⟨go, gp, gm⟩ := hI1.sep g (.graph gs) hg hgs
@@ -562,12 +696,12 @@ theorem applyEdit_frame (e : Edit) {s : St} (hI : FInv B wB s) (ha : ArgsOut B e
     · exact FGoodAt.unsupported hI1
     · fbind (FGoodAt.readVal hI1) with vs s2 hI2 hl2 hq2
       obtain ⟨rfl, hvs⟩ := hq2
-      obtain ⟨a, b, c, d, _⟩ := hI2.sep v (.val vs) hv hvs
+      obtain ⟨a, b, c, d, _, k⟩ := hI2.sep v (.val vs) hv hvs
       split
       · exact FGoodAt.raise hI2
-      · fbind (FGoodAt.set hI2 hv (show CellOut B (.val { vs with isOut := true, graph := some g }) from
-          ⟨a, b, c, d, hg⟩)) with u s3 hI3 hl3 hq3
-        refine FGoodAt.set hI3 hg (show CellOut B (.graph { gs with outputs := gs.outputs ++ [v] }) from
+      · fbind (FGoodAt.set hI2 hv (show CellOut strict B (.val { vs with isOut := true, graph := some g }) from
+          ⟨a, b, c, d, hg, k⟩)) with u s3 hI3 hl3 hq3
+        refine FGoodAt.set hI3 hg (show CellOut strict B (.graph { gs with outputs := gs.outputs ++ [v] }) from
           ⟨?_, gp, gm⟩)
         intro x hx
         rcases List.mem_append.mp hx with h | h
@@ -575,7 +709,7 @@ theorem applyEdit_frame (e : Edit) {s : St} (hI : FInv B wB s) (ha : ArgsOut B e
         · simp at h; subst h; exact hv
   | popOutput g =>
     have hg : ¬ B g := ha g (by simp [Edit.args])
-    unfold applyEdit
+    unfold applyEdit0
     fbind (FGoodAt.readGraph hI) with gs s1 hI1 hl1 hq1
     obtain ⟨rfl, hgs⟩ := hq1
     obtain ⟨go, gp, gm⟩ := hI1.sep g (.graph gs) hg hgs
@@ -585,7 +719,7 @@ theorem applyEdit_frame (e : Edit) {s : St} (hI : FInv B wB s) (ha : ArgsOut B e
       · exact FGoodAt.raise hI1
       · next v hv =>
         have hvB : ¬ B v := go v (List.mem_of_getLast? hv)
-        have hdrop : CellOut B (.graph { gs with outputs := gs.outputs.dropLast }) :=
+        have hdrop : CellOut strict B (.graph { gs with outputs := gs.outputs.dropLast }) :=
           ⟨fun x hx => go x (List.dropLast_subset _ hx), gp, gm⟩
         fbind (FGoodAt.set hI1 hg hdrop) with u s2 hI2 hl2 hq2
         split
@@ -596,7 +730,72 @@ theorem applyEdit_frame (e : Edit) {s : St} (hI : FInv B wB s) (ha : ArgsOut B e
           refine FGoodAt.set hI3 hvB ?_
           split
           · exact ⟨a, b, c, d, e⟩
-          · exact ⟨a, b, c, d, trivial⟩
+          · exact ⟨a, b, c, d, trivial, e.2⟩
+
+  | setNodeDomain _ _ => exact FGoodAt.unsupported hI
+  | setNodeOverload _ _ => exact FGoodAt.unsupported hI
+  | setNodeVersion _ _ => exact FGoodAt.unsupported hI
+  | setNodeDoc _ _ => exact FGoodAt.unsupported hI
+  | setGraphDoc _ _ => exact FGoodAt.unsupported hI
+  | setDev _ _ => exact FGoodAt.unsupported hI
+  | setFuncName _ _ => exact FGoodAt.unsupported hI
+  | setModelHeader _ _ => exact FGoodAt.unsupported hI
+
+theorem applyEdit_frame (e : Edit) {s : St} (hI : FInv strict B wB s) (ha : ArgsOut B e) :
+    FGoodAt strict B wB (applyEdit e) s (fun _ _ => True) := by
+  have hnode : ∀ (n : Nat) (f : NodeS → NodeS), ¬ B n →
+      (∀ ns, CellOut strict B (.node ns) → CellOut strict B (.node (f ns))) →
+      FGoodAt strict B wB (do let ns ← readNode n; setCell n (.node (f ns))) s (fun _ _ => True) := by
+    intro n f hn hf
+    fbind (FGoodAt.readNode hI) with ns s1 hI1 hl1 hq1
+    obtain ⟨rfl, h⟩ := hq1
+    exact FGoodAt.set hI1 hn (hf ns (hI1.sep n (.node ns) hn h))
+  cases e with
+  | setNodeDomain n x => exact hnode n (fun ns => { ns with domain := x }) (ha n (by simp [Edit.args])) (fun _ h => h)
+  | setNodeOverload n x => exact hnode n (fun ns => { ns with overload := x }) (ha n (by simp [Edit.args])) (fun _ h => h)
+  | setNodeVersion n x => exact hnode n (fun ns => { ns with version := x }) (ha n (by simp [Edit.args])) (fun _ h => h)
+  | setNodeDoc n x => exact hnode n (fun ns => { ns with doc := x }) (ha n (by simp [Edit.args])) (fun _ h => h)
+  | setDev n d => exact hnode n (fun ns => { ns with dev := d }) (ha n (by simp [Edit.args])) (fun _ h => h)
+  | setGraphDoc g x =>
+    have hg : ¬ B g := ha g (by simp [Edit.args])
+    show FGoodAt strict B wB (do let gs ← readGraph g; setCell g (.graph { gs with doc := x })) s _
+    fbind (FGoodAt.readGraph hI) with gs s1 hI1 hl1 hq1
+    obtain ⟨rfl, h⟩ := hq1
+    exact FGoodAt.set hI1 hg (show CellOut strict B (.graph { gs with doc := x }) from hI1.sep g (.graph gs) hg h)
+  | setFuncName f x =>
+    have hf : ¬ B f := ha f (by simp [Edit.args])
+    show FGoodAt strict B wB (do let fs ← readFunc f; setCell f (.func { fs with name := x })) s _
+    fbind (FGoodAt.readFunc hI) with fs s1 hI1 hl1 hq1
+    exact FGoodAt.set hI1 hf (c := .func _) trivial
+  | setModelHeader m x =>
+    have hm : ¬ B m := ha m (by simp [Edit.args])
+    show FGoodAt strict B wB (do let ms ← readModel m; setCell m (.model { ms with header := x })) s _
+    fbind (FGoodAt.readModel hI) with ms s1 hI1 hl1 hq1
+    obtain ⟨rfl, h⟩ := hq1
+    exact FGoodAt.set hI1 hm (show CellOut strict B (.model { ms with header := x }) from hI1.sep m (.model ms) hm h)
+  | setName v nm => exact applyEdit0_frame (.setName v nm) hI ha
+  | setType v t => exact applyEdit0_frame (.setType v t) hI ha
+  | setDtype v d => exact applyEdit0_frame (.setDtype v d) hI ha
+  | setTypeDenot v x => exact applyEdit0_frame (.setTypeDenot v x) hI ha
+  | setShape v x => exact applyEdit0_frame (.setShape v x) hI ha
+  | setDim v i d => exact applyEdit0_frame (.setDim v i d) hI ha
+  | setDimDenot v i x => exact applyEdit0_frame (.setDimDenot v i x) hI ha
+  | setConst v t => exact applyEdit0_frame (.setConst v t) hI ha
+  | setDoc v x => exact applyEdit0_frame (.setDoc v x) hI ha
+  | dictSet o wh k x => exact applyEdit0_frame (.dictSet o wh k x) hI ha
+  | dictDel o wh k => exact applyEdit0_frame (.dictDel o wh k) hI ha
+  | metaInvalidate o k => exact applyEdit0_frame (.metaInvalidate o k) hI ha
+  | replaceInput n i v => exact applyEdit0_frame (.replaceInput n i v) hI ha
+  | setNodeName n x => exact applyEdit0_frame (.setNodeName n x) hI ha
+  | setOpType n x => exact applyEdit0_frame (.setOpType n x) hI ha
+  | setAttr n k p => exact applyEdit0_frame (.setAttr n k p) hI ha
+  | delAttr n k => exact applyEdit0_frame (.delAttr n k) hI ha
+  | setGraphName g x => exact applyEdit0_frame (.setGraphName g x) hI ha
+  | setOpset g d v => exact applyEdit0_frame (.setOpset g d v) hI ha
+  | removeNode g n => exact applyEdit0_frame (.removeNode g n) hI ha
+  | appendNode g a b c d => exact applyEdit0_frame (.appendNode g a b c d) hI ha
+  | appendOutput g v => exact applyEdit0_frame (.appendOutput g v) hI ha
+  | popOutput g => exact applyEdit0_frame (.popOutput g) hI ha
 
 end
 
